@@ -98,7 +98,7 @@ def geometry_names(spec):
                 names.append(g["names"]["lat"] + "_bnds")
             if g.get("lon_bounds") is not None:
                 names.append(g["names"]["lon"] + "_bnds")
-        elif g["bounds"]:
+        elif g["bounds"] or g.get("bad_bounds"):
             names += [g["names"]["lat"] + "_bnds", g["names"]["lon"] + "_bnds"]
         return names
     if conv in ("arakawa", "shoc_standard"):
@@ -246,6 +246,10 @@ def _check_points(ctx, spec, ds, conv, preq, xys, hits, misses, face_vars, all_d
 
     # ---- extract_dataframe
     lon_col, lat_col = preq["columns"]
+    if lon_col in ds.variables or lat_col in ds.variables:
+        # a column named like a variable of the dataset (possible since grid dimensions may
+        # carry dimension coordinates) is a clash of the caller's making
+        lon_col, lat_col = "p" + lon_col, "p" + lat_col
     frame = {lon_col: [xy[0] for xy in xys], lat_col: [xy[1] for xy in xys]}
     extras = {}
     if preq["extra_columns"]:
